@@ -8,7 +8,7 @@ OUT=$HERE/mutants/RESULTS.tsv
 for f in $HERE/mutants/*$PAT*.patch $HERE/seeded/*/patch.diff; do
   [ -f "$f" ] || continue
   case "$f" in
-    */seeded/*) name="seeded-$(basename $(dirname $f))"; prop=$(basename $(dirname $f));;
+    */seeded/*) name="seeded-$(basename $(dirname $f))"; prop=$(basename $(dirname $f) | cut -c1-3);;
     *) name=$(basename $f .patch); prop=$(echo $name | cut -c1-3 | tr a-z A-Z);;
   esac
   res=$(TAIL=40 $HERE/tools/mutant.sh "$f" $prop $BUDGET 2>&1)
